@@ -377,6 +377,7 @@ def run(ctx):
     factor_accessors_match_ordering(ctx)
     success_requires_orthonormal_iterate(ctx, X)
     pivots_positive_before_sqrt(ctx)
+    cached_products_follow_iterate(ctx, X)
 
 
 def factor_accessors_match_ordering(ctx, rule='sparse-factors-used-with-their-ordering'):
@@ -490,3 +491,145 @@ def pivots_positive_before_sqrt(ctx, rule='gram-pivots-tested-before-the-square-
               'the square roots of the pivots are taken only behind a positivity test that leaves with a failure status' if ok else
               'the square roots of the LDLT pivots (`%s`) are taken through complex numbers with no test of their sign or size, and the real part of the result is kept: a negative pivot '
               'becomes a zero column, the Rayleigh-Ritz step (which assumes R\'BR = I) gets a spurious Ritz value 0, and Success is later reported with an eigenvalue that is not among the k smallest' % fn.s(roots[0])[:40])
+
+
+VALUE_CHANGING = ('prune', 'coeffRef', 'insert', 'insertBack', 'setZero', 'setIdentity', 'setFromTriplets', 'normalize', 'valuePtr', 'setConstant', 'fill')
+
+
+def cached_products_follow_iterate(ctx, X, rule='cached-products-follow-the-iterate'):
+    """The convergence verdict and residuals() are computed from the CACHED products AX, BX, never from A and B again; the
+    property's residual identity is about A X and B X.  So AX = A X and BX = B X must be an invariant of compute(): after the
+    initial products, (a) every assignment to the iterate X has, in the same statement list, sibling assignments to AX and BX
+    whose right-hand sides are the same expression under a consistent renaming of blocks that sends X to AX (resp. BX) -- the
+    same linear recombination applied to the images; (b) no other value-changing member call (prune, coefficient writes,
+    scaling) touches X, AX or BX: entry-wise edits of the blocks applied independently break A X = AX even when each looks like
+    numerical hygiene."""
+    M = _cls(ctx)
+    comp = M['compute']
+    # the images: AX from `AX = A * X`; BX from `BX = B * X` or as the third argument of the orthogonalisation of X
+    img = {}
+    for x in comp.walk():
+        if x['k'] in ('CXXOperatorCallExpr', 'BinaryOperator') and x.get('op') == '=':
+            t = sym(comp, x, inline=False)
+            if t[1][0] == 'L' and isinstance(t[2], tuple) and t[2][0] == '*' and len(t[2]) == 3 and t[2][2] == ('F', X) and t[2][1][0] in ('F', 'L'):
+                img.setdefault('A' if 'A' in t[1][1] and 'B' not in t[1][1][:1] else 'B', t[1][1])
+        if x['k'] in ('CXXMemberCallExpr', 'CallExpr') and x.get('callee') == 'orthogonalizeInPlace':
+            a = comp.call_args(x)
+            ts = [sym(comp, y, inline=False) for y in a]
+            if ts and ts[0] == ('F', X) and len(ts) >= 3 and ts[2][0] == 'L':
+                img['B'] = ts[2][1]
+    if 'A' not in img or 'B' not in img:
+        raise AnalysisBroken('LOBPCGSolver::compute: cached products of the iterate not identified (%s)' % img)
+    trio = {('F', X): 'X', ('L', img['A']): 'AX', ('L', img['B']): 'BX'}
+    # (b) value-changing member calls
+    n = 0
+    for x in comp.walk():
+        if (x['k'] == 'CXXMemberCallExpr' and x.get('callee') in VALUE_CHANGING) or (x['k'] == 'CXXOperatorCallExpr' and x.get('op') in ('*=', '/=', '+=', '-=')):
+            o = comp.call_object(x) if x['k'] == 'CXXMemberCallExpr' else (comp.call_args(x) or [None])[0]
+            t = sym(comp, o, inline=False) if o is not None else None
+            if t in trio:
+                n += 1
+                ctx.fail(rule, 'LOBPCGSolver::compute@%s.%s' % (trio[t], x.get('callee') or x.get('op')), comp.loc(x),
+                         '`%s` edits %s entry-wise on its own: the cached products no longer equal A X / B X, while the convergence verdict and residuals() are '
+                         'taken from them -- Success with residuals() below the tolerance and a true residual above it' % (comp.s(x['id'])[:50], trio[t]))
+
+    # (a) sibling assignments
+    def unify(a, b, mp):
+        if isinstance(a, tuple) and isinstance(b, tuple) and a[0] in ('F', 'L') and b[0] in ('F', 'L') and len(a) == 2 and len(b) == 2:
+            if mp.setdefault(a, b) != b:
+                return False
+            return True
+        if isinstance(a, tuple) and isinstance(b, tuple):
+            return len(a) == len(b) and a[0] == b[0] and all(unify(u, v, mp) for u, v in zip(a[1:], b[1:]))
+        return a == b
+    # all block assignments of compute(), by statement list
+    assigns = []
+    for x in comp.walk():
+        if x['k'] in ('CXXOperatorCallExpr', 'BinaryOperator') and x.get('op') == '=':
+            t = sym(comp, x, inline=False)
+            if isinstance(t[1], tuple) and t[1][0] in ('F', 'L') and len(t[1]) == 2:
+                par = [p for p in comp.ancestors(x) if p['k'] == 'CompoundStmt']
+                assigns.append((par[0]['id'] if par else -1, t, x))
+    opA = None
+    for _, t, _x in assigns:
+        if t[1] == ('L', img['A']) and t[2][0] == '*' and t[2][2] == ('F', X):
+            opA = t[2][1]
+    memo = {}
+    # blocks produced together with their B-image by the orthogonalisation helper: orthogonalizeInPlace(P, B, BP)
+    ortho_pairs = set()
+    for x in comp.walk():
+        if x['k'] in ('CXXMemberCallExpr', 'CallExpr') and x.get('callee') == 'orthogonalizeInPlace':
+            ts = [sym(comp, y, inline=False) for y in comp.call_args(x)]
+            if len(ts) >= 3:
+                ortho_pairs.add((ts[0], ts[2]))
+
+    def defined_as_image(p_, q_):
+        return (p_, q_) in ortho_pairs or any(t[1] == q_ and t[2][0] == '*' and len(t[2]) == 3 and t[2][2] == p_ for _, t, _ in assigns)
+
+    def is_coeff(k):
+        return k[1].startswith(('sparse_', 'eVec', 'm_evectors'))
+
+    def image_ok(p_, q_, which, depth=0):
+        """q_ is maintained as the image of p_ under the operator `which` wherever p_ is assigned in compute()."""
+        key = (p_, q_, which)
+        if key in memo:
+            return memo[key]
+        memo[key] = True          # co-inductive: the pair may refer to itself (X = X * c + ..)
+        if depth > 4:
+            return True
+        mine = [(g, t) for g, t, _ in assigns if t[1] == p_]
+        ok = True
+        if not mine:
+            # never assigned here (a field computed elsewhere): q_ must be produced as  op * p_  somewhere
+            ok = defined_as_image(p_, q_)
+        for g, t in mine:
+            if t[2][0] == '*' and len(t[2]) == 3 and t[2][1][0] in ('F', 'L') and not is_coeff(t[2][1]) and t[2][1] not in [a[1][1] for a in assigns]:
+                pass
+            found = False
+            for g2, t2, _ in assigns:
+                if g2 != g or t2[1] != q_:
+                    continue
+                mp = {}
+                if not unify(t[2], t2[2], mp) or len(set(mp.values())) != len(mp):
+                    continue
+                good = True
+                for k, v in mp.items():
+                    if k == v:
+                        good = good and (is_coeff(k) or k == opA)
+                    else:
+                        good = good and image_ok(k, v, which, depth + 1)
+                if good:
+                    found = True
+            # `q = op * p` computed directly right after is the definition itself
+            if not found and defined_as_image(p_, q_):
+                found = True
+            ok = ok and found
+        memo[key] = ok
+        return ok
+    m = 0
+    for g, t, x in assigns:
+        if t[1] != ('F', X):
+            continue
+        if not (('F', X) in atoms(t[2])):
+            continue
+        m += 1
+        probs = []
+        memo.clear()
+        for im, src in (('AX', ('L', img['A'])), ('BX', ('L', img['B']))):
+            sibs = [t2 for g2, t2, _ in assigns if g2 == g and t2[1] == src]
+            good = False
+            for ts in sibs:
+                mp = {}
+                if unify(t[2], ts[2], mp) and mp.get(('F', X)) == src and len(set(mp.values())) == len(mp):
+                    memo[(('F', X), src, im)] = True
+                    if all((is_coeff(k) if k == v else image_ok(k, v, im)) for k, v in mp.items() if k != ('F', X)):
+                        good = True
+            if not good:
+                probs.append('%s is not updated by the same recombination of image blocks (`%s`)' % (im, '; '.join(show(ts[2])[:50] for ts in sibs) or 'no assignment in this statement list'))
+        ctx.check(not probs, rule, 'LOBPCGSolver::compute@X-update#%d' % m, comp.qname,
+                  '`X = %s` with the same recombination applied to AX and BX' % show(t[2])[:50] if not probs else
+                  '`X = %s` at %s: %s -- A X = AX is lost, the residual test works on products of another block' % (show(t[2])[:50], comp.loc(x), '; '.join(probs)))
+    if m < 2:
+        raise AnalysisBroken('only %d updates of the iterate found in LOBPCGSolver::compute (2 confirmed by hand)' % m)
+    if n == 0:
+        ctx.ok(rule, 'LOBPCGSolver::compute@in-place-edits', comp.qname, 'no value-changing member call on X, AX, BX')
